@@ -14,6 +14,7 @@ queue (C02), so it is a deterministic machine over the sequence of envelopes it 
   in ascending id; `MV.Props.C10.C10_iteration_order_irrelevant` shows that no subscriber can tell),
 * `guid`, `sas` (the keys of the map; the value is determined by the key:
   `NewActorRef(address, "/user/sub")`),
+* `self`, the node's own physical address (`onSharedSubscriptionStatusChangedMessage` compares with it),
 * `onSubscribeRequest`, `onUnsubscribeRequest`, `onLocalPublishRequest` (broadcast to every entry of
   `sas` iff `len(sas) > 0` and the codec encodes the payload; then the local fan-out with
   `ctx.Sender()` as sender), `onPublishRequestBroadcast` (decode, fan out with `m.Publisher` as
@@ -36,7 +37,9 @@ are FIFO lists (that is what C02 proves of the real mailboxes); one `Act` is one
 * `unsubscribe r sub` — `ctx.UnSubscribe`: tell + `delete(ctx.subscriptions, id)`,
 * `publish r t p` — `ctx.Publish`: an ask with `r` as sender (`system.Publish` is the guard's),
 * `saStep` — one turn of the subscription actor, effects applied at once (`deliveryUserMessage`
-  pushes into the subscriber's mailbox inside the turn; an unregistered subscriber ⇒ dead letter),
+  pushes into the subscriber's mailbox inside the turn; an unregistered subscriber ⇒ dead letter; a
+  `Tell` to another node's subscription actor goes into `link` — the own address is never among them,
+  `MV.Props.C10.C10_no_self_broadcast`),
 * `handle r` — `r` takes the next publication from its mailbox (a terminated actor's leftovers
   become dead letters: `ProcessUserMessage` with `status >= terminating`),
 * `restart r` / `terminate r` — `tryRestarted` / `tryTerminated`: `UnSubscribe` for everything in
@@ -104,6 +107,8 @@ deriving DecidableEq, Repr
 /-! ## the subscription actor -/
 
 structure SubActor where
+  /-- `ctx.System().PhysicalAddress()`: the address of the node this subscription actor lives on -/
+  self : Nat
   /-- keys of `subscribes` -/
   topics : List Topic
   /-- `subscribes[t]`, ascending id -/
@@ -112,8 +117,8 @@ structure SubActor where
   /-- keys of `sas`, in insertion order -/
   sas : List Nat
 
-/-- state after `OnLaunch` -/
-def SubActor.init : SubActor := { topics := [], subs := fun _ => [], guid := 0, sas := [] }
+/-- state after `OnLaunch` on the node with physical address `self` -/
+def SubActor.init (self : Nat) : SubActor := { self := self, topics := [], subs := fun _ => [], guid := 0, sas := [] }
 
 /-- reading `s.subscribes[t]`: the nil map when the key is absent -/
 def SubActor.lookup (s : SubActor) (t : Topic) : List Subscription :=
@@ -127,7 +132,8 @@ def onSubscribeRequest (s : SubActor) (sender : Option Ref) (t : Topic) (r : Ref
   let inner := s.lookup t
   let g := s.guid + 1
   let sub : Subscription := { topic := t, id := g, subscriber := r }
-  ({ topics := if t ∈ s.topics then s.topics else s.topics ++ [t],
+  ({ self := s.self,
+     topics := if t ∈ s.topics then s.topics else s.topics ++ [t],
      subs := fun t' => if t' = t then inner.filter (fun x => x.id != g) ++ [sub] else s.subs t',
      guid := g,
      sas := s.sas },
@@ -146,8 +152,12 @@ def onLocalPublishRequest (s : SubActor) (sender : Option Ref) (t : Topic) (p : 
   let remote := if 0 < s.sas.length ∧ p.enc = true then s.sas.map (fun a => Eff.tellRemote a t p sender) else []
   (s, remote ++ fanout (s.lookup t) sender p.id)
 
+/-- `onSharedSubscriptionStatusChangedMessage`; the local node is never listed (cluster contact
+    providers announce it too — memberlist calls `NotifyJoin` for the local node): its subscribers are
+    reached by the local fan-out -/
 def onStatusChanged (s : SubActor) (sender : Option Ref) (a : Nat) (closed : Bool) : SubActor × List Eff :=
-  if closed then ({ s with sas := s.sas.filter (fun x => x != a) }, [Eff.replyNil sender])
+  if a = s.self then (s, [Eff.replyNil sender])
+  else if closed then ({ s with sas := s.sas.filter (fun x => x != a) }, [Eff.replyNil sender])
   else ({ s with sas := if a ∈ s.sas then s.sas else s.sas ++ [a] }, [Eff.replyNil sender])
 
 /-- one turn of `subscriptionActor.OnReceive` -/
@@ -211,8 +221,8 @@ structure Sys where
   /-- ghost: every `Publish` call (publisher, topic, payload) in call order -/
   published : List (Ref × Topic × Payload)
 
-def Sys.init : Sys :=
-  { sa := SubActor.init, saQ := [], actors := fun _ => Actor.none, dead := [], link := [], processed := [], published := [] }
+def Sys.init (self : Nat) : Sys :=
+  { sa := SubActor.init self, saQ := [], actors := fun _ => Actor.none, dead := [], link := [], processed := [], published := [] }
 
 def Sys.setActor (s : Sys) (r : Ref) (a : Actor) : Sys :=
   { s with actors := fun r' => if r' = r then a else s.actors r' }
@@ -332,7 +342,7 @@ structure Net where
   /-- how many entries of `n2.link` the link has carried so far -/
   sent2 : Nat
 
-def Net.init : Net := { n1 := Sys.init, n2 := Sys.init, sent1 := 0, sent2 := 0 }
+def Net.init : Net := { n1 := Sys.init 1, n2 := Sys.init 2, sent1 := 0, sent2 := 0 }
 
 inductive NAct where
   | at1 (a : Act)
